@@ -1146,6 +1146,13 @@ unaryexpr(struct scope *s)
 		e = mkincdecexpr(op, l, false);
 		break;
 	case TBAND:
+		next();
+		e = castexpr(s);
+		/* mkunaryexpr also serves member access, which takes the address of struct values */
+		l = e->decayed ? e->base : e;
+		if (!l->lvalue && l->type->kind != TYPEFUNC)
+			error(&tok.loc, "'&' operand is not an lvalue or function designator");
+		return mkunaryexpr(op, e);
 	case TMUL:
 		next();
 		return mkunaryexpr(op, castexpr(s));
